@@ -12,9 +12,9 @@
    bookkeeping is always done. *)
 EXTENDS TraceIO, FiniteSets, TcpC05
 CONSTANT Check
-VARIABLES cfg, up, written, offer, shut, emitMax, delivered, eos, rstop, contig, parked, okEnd, finArr,
+VARIABLES cfg, up, written, offer, shut, emitMax, delivered, eos, rstop, contig, pcontig, parked, okEnd, finArr,
           maxEdge, advEdge, mss, ws, err, faults, c5
-tvars == <<l, cfg, up, written, offer, shut, emitMax, delivered, eos, rstop, contig, parked, okEnd, finArr,
+tvars == <<l, cfg, up, written, offer, shut, emitMax, delivered, eos, rstop, contig, pcontig, parked, okEnd, finArr,
            maxEdge, advEdge, mss, ws, err, faults, c5>>
 E == {"a", "b"}
 Peer(e) == IF e = "a" THEN "b" ELSE "a"
@@ -32,32 +32,32 @@ Zero == [e \in E |-> 0]
 Neg == [e \in E |-> -1]
 False == [e \in E |-> FALSE]
 TInit == /\ l = 1 /\ cfg = [mtu |-> 1500] /\ up = False /\ written = Zero /\ offer = Zero /\ shut = Neg /\ emitMax = Zero
-         /\ delivered = Zero /\ eos = False /\ rstop = False /\ contig = Zero /\ parked = [e \in E |-> {}] /\ okEnd = Zero /\ finArr = Neg
+         /\ delivered = Zero /\ eos = False /\ rstop = False /\ contig = Zero /\ pcontig = Zero /\ parked = [e \in E |-> {}] /\ okEnd = Zero /\ finArr = Neg
          /\ maxEdge = Zero /\ advEdge = Neg /\ mss = Neg /\ ws = Neg /\ err = [e \in E |-> ""] /\ faults = 0 /\ c5 = C5Init /\ HWInit
-Same == UNCHANGED <<cfg, up, written, offer, shut, emitMax, delivered, eos, rstop, contig, parked, okEnd, finArr, maxEdge, advEdge, mss, ws, err, faults, c5>>
+Same == UNCHANGED <<cfg, up, written, offer, shut, emitMax, delivered, eos, rstop, contig, pcontig, parked, okEnd, finArr, maxEdge, advEdge, mss, ws, err, faults, c5>>
 
 Reset == /\ IsEvent("reset")
          /\ cfg' = Ev /\ up' = False /\ written' = Zero /\ offer' = Zero /\ shut' = Neg /\ emitMax' = Zero
-         /\ delivered' = Zero /\ eos' = False /\ rstop' = False /\ contig' = Zero /\ parked' = [e \in E |-> {}] /\ okEnd' = Zero /\ finArr' = Neg
+         /\ delivered' = Zero /\ eos' = False /\ rstop' = False /\ contig' = Zero /\ pcontig' = Zero /\ parked' = [e \in E |-> {}] /\ okEnd' = Zero /\ finArr' = Neg
          /\ maxEdge' = Zero /\ advEdge' = Neg /\ mss' = Neg /\ ws' = Neg /\ err' = [e \in E |-> ""] /\ faults' = 0 /\ c5' = C5Init
 
 Skip == /\ (IsEvent("connect") \/ IsEvent("shutret") \/ IsEvent("note")) /\ Same
 Up == /\ IsEvent("up")
       /\ up' = [up EXCEPT ![Ev.e] = (Ev.err = "")] /\ err' = [err EXCEPT ![Ev.e] = Ev.err]
-      /\ UNCHANGED <<cfg, written, offer, shut, emitMax, delivered, eos, rstop, contig, parked, okEnd, finArr, maxEdge, advEdge, mss, ws, faults, c5>>
+      /\ UNCHANGED <<cfg, written, offer, shut, emitMax, delivered, eos, rstop, contig, pcontig, parked, okEnd, finArr, maxEdge, advEdge, mss, ws, faults, c5>>
 
 \* ------------------------------------------------------------------ application side
 WCall == /\ IsEvent("wcall") /\ Ev.off = written[Ev.e] /\ offer[Ev.e] = 0
          /\ offer' = [offer EXCEPT ![Ev.e] = Ev.n]
-         /\ UNCHANGED <<cfg, up, written, shut, emitMax, delivered, eos, rstop, contig, parked, okEnd, finArr, maxEdge, advEdge, mss, ws, err, faults, c5>>
+         /\ UNCHANGED <<cfg, up, written, shut, emitMax, delivered, eos, rstop, contig, pcontig, parked, okEnd, finArr, maxEdge, advEdge, mss, ws, err, faults, c5>>
 WRet == /\ IsEvent("wret")
         /\ Ev.n <= offer[Ev.e] /\ Ev.n >= 0
         /\ On("C01") => emitMax[Ev.e] <= written[Ev.e] + Ev.n            \* nothing beyond the accepted bytes was put on the wire
         /\ written' = [written EXCEPT ![Ev.e] = @ + Ev.n] /\ offer' = [offer EXCEPT ![Ev.e] = 0]
-        /\ UNCHANGED <<cfg, up, shut, emitMax, delivered, eos, rstop, contig, parked, okEnd, finArr, maxEdge, advEdge, mss, ws, err, faults, c5>>
+        /\ UNCHANGED <<cfg, up, shut, emitMax, delivered, eos, rstop, contig, pcontig, parked, okEnd, finArr, maxEdge, advEdge, mss, ws, err, faults, c5>>
 ShutW == /\ IsEvent("shutw") /\ Ev.at = written[Ev.e]
          /\ shut' = [shut EXCEPT ![Ev.e] = Ev.at]
-         /\ UNCHANGED <<cfg, up, written, offer, emitMax, delivered, eos, rstop, contig, parked, okEnd, finArr, maxEdge, advEdge, mss, ws, err, faults, c5>>
+         /\ UNCHANGED <<cfg, up, written, offer, emitMax, delivered, eos, rstop, contig, pcontig, parked, okEnd, finArr, maxEdge, advEdge, mss, ws, err, faults, c5>>
 \* C01: bytes returned by reads are at all times a prefix of the bytes accepted by the peer's writes
 Read == /\ IsEvent("read")
         /\ LET e == Ev.e  p == Peer(Ev.e) IN
@@ -68,21 +68,21 @@ Read == /\ IsEvent("read")
                            /\ Ev.off + Ev.n <= contig[e]                                \* only data that actually arrived, in order
            /\ On("C04") => Ev.off + Ev.n <= okEnd[e]     \* only bytes of segments that began inside the advertised window (none wholly outside it)
            /\ delivered' = [delivered EXCEPT ![e] = @ + Ev.n]
-        /\ UNCHANGED <<cfg, up, written, offer, shut, emitMax, eos, rstop, contig, parked, okEnd, finArr, maxEdge, advEdge, mss, ws, err, faults, c5>>
+        /\ UNCHANGED <<cfg, up, written, offer, shut, emitMax, eos, rstop, contig, pcontig, parked, okEnd, finArr, maxEdge, advEdge, mss, ws, err, faults, c5>>
 \* C02: end-of-stream only after everything the peer wrote before its shutdown, and only once its FIN arrived
 Eos == /\ IsEvent("eos")
        /\ LET e == Ev.e IN
           /\ Ev.at = delivered[e]
           /\ On("C02") => (finArr[e] >= 0 /\ delivered[e] = finArr[e] /\ shut[Peer(e)] = finArr[e])
           /\ eos' = [eos EXCEPT ![e] = TRUE]
-       /\ UNCHANGED <<cfg, up, written, offer, shut, emitMax, delivered, rstop, contig, parked, okEnd, finArr, maxEdge, advEdge, mss, ws, err, faults, c5>>
+       /\ UNCHANGED <<cfg, up, written, offer, shut, emitMax, delivered, rstop, contig, pcontig, parked, okEnd, finArr, maxEdge, advEdge, mss, ws, err, faults, c5>>
 ReadStop == /\ IsEvent("readstop") /\ rstop' = [rstop EXCEPT ![Ev.e] = TRUE]
-            /\ UNCHANGED <<cfg, up, written, offer, shut, emitMax, delivered, eos, contig, parked, okEnd, finArr, maxEdge, advEdge, mss, ws, err, faults, c5>>
+            /\ UNCHANGED <<cfg, up, written, offer, shut, emitMax, delivered, eos, contig, pcontig, parked, okEnd, finArr, maxEdge, advEdge, mss, ws, err, faults, c5>>
 \* a connection may fail only with an explicit error; scenarios whose faults are finite and recoverable do not allow it
 RErr == /\ IsEvent("rerr")
         /\ On("C02") => Fld(cfg, "allowerr", FALSE)
         /\ err' = [err EXCEPT ![Ev.e] = Ev.err] /\ rstop' = [rstop EXCEPT ![Ev.e] = TRUE]
-        /\ UNCHANGED <<cfg, up, written, offer, shut, emitMax, delivered, eos, contig, parked, okEnd, finArr, maxEdge, advEdge, mss, ws, faults, c5>>
+        /\ UNCHANGED <<cfg, up, written, offer, shut, emitMax, delivered, eos, contig, pcontig, parked, okEnd, finArr, maxEdge, advEdge, mss, ws, faults, c5>>
 
 \* ------------------------------------------------------------------ wire side
 Scale(e) == IF ws[e] >= 0 /\ ws[Peer(e)] >= 0 THEN ws[e] ELSE 0
@@ -115,6 +115,13 @@ Emit == /\ IsEvent("emit") /\ "bad" \notin DOMAIN Ev
                   \/ (Fld(cfg, "kf_f4", FALSE) /\ Scale(e) > 0 /\ advEdge[e] - edge < Pow2(Scale(e)))   \* known finding F4 (scaled-window rounding)
            /\ (On("C04") /\ Fld(cfg, IF e = "a" THEN "rcvbuf_a" ELSE "rcvbuf_b", 0) > 0 /\ ack /\ ~rst /\ ~syn) =>
                   edge - delivered[e] <= 2 * Fld(cfg, IF e = "a" THEN "rcvbuf_a" ELSE "rcvbuf_b", 0) + Pow2(Scale(e)) + 1500
+           \* ---- C01/C04: an acknowledgement never covers data that has not arrived; and on a synchronous wire (every arrival but
+           \*      the last one has been processed) with default buffers and everything inside the advertised window, it covers all
+           \*      in-order data the endpoint held before the last arrival: data the stack accepted is acknowledged, not sat on
+           /\ (ack /\ ~rst /\ ~syn /\ (On("C01") \/ On("C04"))) => Ev.ack - 1 <= contig[e] + (IF finArr[e] >= 0 THEN 1 ELSE 0)
+           /\ (ack /\ ~rst /\ ~syn /\ On("C04") /\ Fld(cfg, "sync", FALSE) /\ Fld(cfg, IF e = "a" THEN "rcvbuf_a" ELSE "rcvbuf_b", 0) = 0
+                   /\ advEdge[e] >= 0 /\ contig[e] <= advEdge[e] /\ ~eos[e] /\ ~rstop[e])
+                 => Ev.ack - 1 >= pcontig[e]
            \* ---- C05 (clauses in module TcpC05)
            /\ (len > 0 /\ On("C05")) => C5EmitOK(c5[e], off, len, Ev.t, Fld(cfg, "kf_f7", FALSE), Fld(cfg, "cc", "") \in {"", "reno"})
            \* ---- bookkeeping
@@ -123,7 +130,7 @@ Emit == /\ IsEvent("emit") /\ "bad" \notin DOMAIN Ev
            /\ mss' = [mss EXCEPT ![e] = IF syn THEN Ev.mss ELSE @]
            /\ ws' = [ws EXCEPT ![e] = IF syn THEN Ev.ws ELSE @]
            /\ c5' = [c5 EXCEPT ![e] = IF len > 0 THEN C5AfterEmit(@, off, len, Ev.t, emitMax[e]) ELSE @]
-        /\ UNCHANGED <<cfg, up, written, offer, shut, delivered, eos, rstop, contig, parked, okEnd, finArr, maxEdge, err, faults>>
+        /\ UNCHANGED <<cfg, up, written, offer, shut, delivered, eos, rstop, contig, pcontig, parked, okEnd, finArr, maxEdge, err, faults>>
 EmitOther == /\ IsEvent("emit") /\ "bad" \in DOMAIN Ev /\ Same
 
 Arrive == /\ IsEvent("arrive") /\ "bad" \notin DOMAIN Ev
@@ -134,6 +141,7 @@ Arrive == /\ IsEvent("arrive") /\ "bad" \notin DOMAIN Ev
                  nc == Adv(contig[e], np)
              IN
              /\ contig' = [contig EXCEPT ![e] = nc]
+             /\ pcontig' = [pcontig EXCEPT ![e] = contig[e]]      \* what had arrived in order before this (possibly still unprocessed) arrival
              /\ parked' = [parked EXCEPT ![e] = {iv \in np : iv[2] > nc}]
              /\ okEnd' = [okEnd EXCEPT ![e] = IF len > 0 /\ (advEdge[e] < 0 \/ off < advEdge[e]) THEN Max2(@, off + len) ELSE @]
              /\ finArr' = [finArr EXCEPT ![e] = IF fin /\ ~rst THEN off + len ELSE @]
@@ -142,7 +150,7 @@ Arrive == /\ IsEvent("arrive") /\ "bad" \notin DOMAIN Ev
           /\ UNCHANGED <<cfg, up, written, offer, shut, emitMax, delivered, eos, rstop, advEdge, mss, ws, err, faults>>
 ArriveOther == /\ IsEvent("arrive") /\ "bad" \in DOMAIN Ev /\ Same
 Drop == /\ IsEvent("drop") /\ faults' = faults + 1
-        /\ UNCHANGED <<cfg, up, written, offer, shut, emitMax, delivered, eos, rstop, contig, parked, okEnd, finArr, maxEdge, advEdge, mss, ws, err, c5>>
+        /\ UNCHANGED <<cfg, up, written, offer, shut, emitMax, delivered, eos, rstop, contig, pcontig, parked, okEnd, finArr, maxEdge, advEdge, mss, ws, err, c5>>
 
 \* ------------------------------------------------------------------ end of scenario (C02)
 \* everything written before the shutdown was delivered, followed by end-of-stream
